@@ -575,8 +575,16 @@ func (g *vcgen) load(x *ssa.UnOp) {
 	}
 	p := g.val(x.X)
 	if al, ok := x.X.(*ssa.Alloc); ok && g.sharedCell[al] {
-		g.setValFresh(x)
-		return
+		started := false
+		for _, goIns := range g.sharedSince[al] {
+			if mayPrecede(goIns, x) {
+				started = true
+			}
+		}
+		if started {
+			g.setValFresh(x) // a goroutine that writes this variable may already be running
+			return
+		}
 	}
 	_, isAlloc := x.X.(*ssa.Alloc)
 	_, isCell := x.X.(*ssa.FreeVar)
